@@ -34,7 +34,7 @@ def call(rec, what, fn, info):
         return None
 
 
-def setup(cell, seed, tag, rep, zero_M=False):
+def setup(cell, seed, tag, rep, zero_M=False, wide=False):
     ck, Dx, Dy, Rc, Rx = (cell[k] for k in ("ck", "Dx", "Dy", "Rc", "Rx"))
     rng = gen.rng_for(seed, tag, ck, Dx, Dy, Rc, Rx, rep)
     for attempt in range(20):
@@ -43,8 +43,9 @@ def setup(cell, seed, tag, rep, zero_M=False):
         c, tc, kw = build.mk_conditional(ck, rng, Rc, Dy, Dx, kappa=kc, zero_M=zero_M)
         p, tp = build.mk_pdf(rng, Rx, Dx, kappa=kx)
         tj = build.joint_truth(tc, tp)
-        if gen.in_domain(tj.Sigma_xy, tj.Sigma_y):
+        info_wide = not gen.in_domain(tj.Sigma_xy)
+        if gen.in_domain(tj.Sigma_y) and (not info_wide or (wide and gen.cond(tj.Sigma_xy) < 1e7)):
             info = {"ck": ck, "Dx": Dx, "Dy": Dy, "Rc": Rc, "Rx": Rx, "kappa_c": kc,
-                    "kappa_x": kx, "rep": rep}
+                    "kappa_x": kx, "rep": rep, "joint_ill_conditioned": bool(info_wide)}
             return rng, c, tc, kw, p, tp, tj, info, attempt
     return None
